@@ -24,3 +24,22 @@ PROPS['C03'] = dict(
     assumptions=['the Go scheduler plus yield injection produces the interleavings of the concurrent histories; the forced overlaps do not depend on it',
                  'TLC explores every linearization of each recorded history (silent Lin steps)'],
 )
+
+PROPS['C02'] = dict(
+    level='model_checking',
+    design=[
+        D('RouterHandler', 'MCRouterHandler.cfg', coverage=True),
+        D('RouterHandler', 'MCRouterHandler_mut_ackfirst.cfg', expect='fail'),
+        D('RouterHandler', 'MCRouterHandler_mut_pubonerr.cfg', expect='fail', violates='NoPublishAfterError'),
+        D('RouterHandler', 'MCRouterHandler_mut_nonack.cfg', expect='fail'),
+    ],
+    traces={'RouterHandlerTrace': dict(module='RouterHandlerTrace', cfg='RouterHandlerTrace.cfg')},
+    rule='runs = every single-message case of {handler settles itself: no/ack/nack} x {chain ok/err/panic(value|error|nil)} x {0,1,2 outputs} x '
+         '{publisher accept/error/panic} x {publisher handler, no-publisher handler} x {no prefix, pass-through, output-appending middleware}, plus '
+         'random triples of such messages in flight concurrently on one handler with one of them parked at a router hook point; distinct = distinct '
+         'case description; non-trivial = the run reached quiescence with every message settled (all cases exercise a settlement decision)',
+    exhaustive=True,
+    min_stats={'single_cases': 250, 'gates_reached': 10},
+    assumptions=['the settlement of the consumed message is sampled inside the scripted Publish (entry and exit)',
+                 'panic(nil) is a *runtime.PanicNilError (go >= 1.21 semantics of the harness module)'],
+)
